@@ -655,3 +655,176 @@ def _oauth_classify(fn, x, cfg, exp, obs):
 
 
 CLASSIFY["OAuth1"] = _oauth_classify
+
+
+# ============================================================================ C43 HttpUtil
+
+def _flat(x):
+    return [c for part in x for c in part]
+
+
+@adapter("HttpUtil", "parse_request_start_line")
+def _a(x, cfg):
+    from tornado import httputil
+    r = httputil.parse_request_start_line(T(_flat(x)))
+    if len(r) != 3 or any(type(z) is not str for z in r) or (r.method, r.path, r.version) != tuple(r):
+        return {"err": "result shape"}
+    return {"v": [cps(z) for z in r]}
+
+
+@adapter("HttpUtil", "parse_response_start_line")
+def _a(x, cfg):
+    from tornado import httputil
+    r = httputil.parse_response_start_line(T(_flat(x)))
+    if len(r) != 3 or type(r.version) is not str or type(r.code) is not int or not (r.reason is None or type(r.reason) is str):
+        return {"err": "result shape"}
+    return {"v": {"version": cps(r.version), "code": r.code, "reason": cps(r.reason or "")}}
+
+
+def _param_dict(x):
+    return {T(x[i]): T(x[i + 1]) for i in range(1, len(x) - 1, 2)}
+
+
+@adapter("HttpUtil", "encode_header")
+def _a(x, cfg):
+    from tornado import httputil
+    return S(httputil._encode_header(T(x[0]), _param_dict(x)))
+
+
+@adapter("HttpUtil", "parse_encoded_header")
+def _a(x, cfg):
+    from tornado import httputil
+    key, pdict = httputil._parse_header(httputil._encode_header(T(x[0]), _param_dict(x)))
+    if type(key) is not str or type(pdict) is not dict:
+        return {"err": "result shape"}
+    return {"v": {"key": cps(key), "params": [[cps(k), cps(v)] for k, v in sorted(pdict.items())]}}
+
+
+def _total(getf):
+    def f(x, cfg):
+        getf()(T(_flat(x)))
+        return {"v": [1]}
+    return f
+
+
+def _hu(name):
+    def g():
+        from tornado import httputil
+        return getattr(httputil, name)
+    return g
+
+
+ADAPTERS["HttpUtil"]["parse_header_total"] = _total(_hu("_parse_header"))
+ADAPTERS["HttpUtil"]["parse_cookie_total"] = _total(_hu("parse_cookie"))
+ADAPTERS["HttpUtil"]["split_host_and_port_total"] = _total(_hu("split_host_and_port"))
+
+
+@adapter("HttpUtil", "split_host_and_port")
+def _a(x, cfg):
+    from tornado import httputil
+    host, port = httputil.split_host_and_port(T(_flat(x)))
+    if type(host) is not str or not (port is None or type(port) is int):
+        return {"err": "result shape"}
+    return {"v": {"host": cps(host), "port": -1 if port is None else port}}
+
+
+def _fmt_ts(form):
+    def f(x, cfg):
+        import datetime as _dt
+        import time as _time
+        from tornado import httputil
+        t = x[0][0]
+        if form == "int":
+            a = t
+        elif form == "float":
+            a = float(t)
+        elif form == "struct":
+            a = _time.gmtime(t)
+        elif form == "tuple":
+            a = tuple(_time.gmtime(t))
+        elif form == "naive":
+            a = _dt.datetime.fromtimestamp(t, _dt.timezone.utc).replace(tzinfo=None)
+        else:
+            a = _dt.datetime.fromtimestamp(t, _dt.timezone(_dt.timedelta(hours=-7, minutes=-30)))
+        return S(httputil.format_timestamp(a))
+    return f
+
+
+for _f in ("int", "float", "struct", "tuple", "naive", "aware"):
+    ADAPTERS["HttpUtil"]["format_timestamp_" + _f] = _fmt_ts(_f)
+
+
+def _url_args(part):
+    if not part:
+        return []
+    out, cur = [], [[], []]
+    side = 0
+    for c in part:
+        if c == 256:
+            out.append(cur)
+            cur, side = [[], []], 0
+        elif c == 257:
+            side = 1
+        else:
+            cur[side].append(c)
+    out.append(cur)
+    return [(T(k), T(v)) for k, v in out]
+
+
+@adapter("HttpUtil", "url_concat")
+def _a(x, cfg):
+    from tornado import httputil
+    url = T(x[0]) + ("" if x[1] == [-1] else "?" + T(x[1])) + ("" if x[2] == [-1] else "#" + T(x[2]))
+    pairs = _url_args(x[3])
+    form = x[4][0]
+    args = None if form == 0 else dict(pairs) if form == 1 else list(pairs) if form == 2 else tuple(pairs)
+    return S(httputil.url_concat(url, args))
+
+
+@adapter("HttpUtil", "re_escape")
+def _a(x, cfg):
+    import re
+    return S(re.escape(T(_flat(x))))
+
+
+@adapter("HttpUtil", "re_unescape_roundtrip")
+def _a(x, cfg):
+    import re
+    from tornado import util
+    return S(util.re_unescape(re.escape(T(_flat(x)))))
+
+
+@adapter("HttpUtil", "re_unescape")
+def _a(x, cfg):
+    from tornado import util
+    return S(util.re_unescape(T(_flat(x))))
+
+
+@adapter("HttpUtil", "is_valid_ip")
+def _a(x, cfg):
+    from tornado import netutil
+    r = netutil.is_valid_ip(T(_flat(x)))
+    if type(r) is not bool:
+        return {"err": "type:" + type(r).__name__}
+    return {"v": r}
+
+
+def _httputil_classify(fn, x, cfg, exp, obs):
+    sig = {"kind_": cfg.get("kind")}
+    if fn.endswith("_total"):
+        s = T(_flat(x))
+        sig["has_nul"] = "\x00" in s
+        sig["has_rfc2231_star"] = "*" in s
+        sig["long_digit_run"] = len(s) > 4300
+    if fn == "url_concat":
+        import urllib.parse
+        q = "" if x[1] == [-1] else T(x[1])
+        try:
+            urllib.parse.unquote_to_bytes(q).decode("utf-8")
+            sig["query_non_utf8_escape"] = False
+        except UnicodeDecodeError:
+            sig["query_non_utf8_escape"] = True
+    return sig
+
+
+CLASSIFY["HttpUtil"] = _httputil_classify
